@@ -135,6 +135,8 @@ def build(cfg, variant=0):
         extra["estim"] = estim
     if bet is not None:
         extra["bet"] = bet
+    if tn == "alpha_mart" and variant % 11 == 7:
+        return NonnegMean(u=u, N=N, t=num(cfg["t"]), random_order=cfg["ro"], **extra, **kw)     # the default test is ALPHA
     return NonnegMean(test=test, u=u, N=N, t=num(cfg["t"]), random_order=cfg["ro"], **extra, **kw)
 
 
